@@ -181,9 +181,8 @@ namespace avel {
         static vec2x64i compute_mp(vec2x64i l, vec2x64i d) {
             #if defined(AVEL_AVX2)
             vec2x64i n = vec2x64i{1} << (l - vec2x64i{1});
-            n = clear(d == vec2x64i{1}, n);
-
             d = avel::abs(d);
+            n = clear(d == vec2x64i{1}, n);
 
             auto quotient0 = div_64uhi_by_64u(extract<0>(n), extract<0>(d));
             auto quotient1 = div_64uhi_by_64u(extract<1>(n), extract<1>(d));
